@@ -23,7 +23,8 @@ ASSUMPTIONS = ['string / error lines keep their remainder literally (documented)
                'lines are outside the listed freedoms']
 
 HOSTILE = ['# plain', '#', '# (paren', '# ) , = :', "# it's", '# string x', '# error boom', '#%hi(', '# L0: addi x1, x1, 1', '# "quoted" \'q\'',
-           '#\ttab', '# 0x10(x2)', "# ','", '# \\n', '## banner ##', '# item #1', '#### section', '# a # b', "# '#' is 35"]
+           '#\ttab', '# 0x10(x2)', "# ','", '# \\n', '## banner ##', '# item #1', '#### section', '# a # b', "# '#' is 35",
+           '# see C:\\fw\\', '# +-----\\', '#\\', '# a \\ b', '# K = 5', '# t0 := 1', '# é €', '# //', '# ;', '# /* c */', '# `x` {k} [0] $1 @a']
 BASE_OFFSET = {'jalr', 'lb', 'lh', 'lw', 'lbu', 'lhu', 'sb', 'sh', 'sw', 'c.lw', 'c.sw'}
 ABI = O.ABI
 
